@@ -320,9 +320,17 @@ def QOps.sound (tbl : List GateTpl) (n : Nat) : QOps P → Bool
     g.sound tbl && sub.length == nbits tbl g && decide sub.Nodup && sub.all (· < n) && rest.sound tbl n
 end
 
+/-- a good chunk; unconditional translations carry no `if` -/
+def ChunkOK' (nq : Nat) (cond : Option Nat) (c : Chunk P) : Prop := ChunkOK nq c ∧ (cond = none → c.conds = [])
+
 theorem withCond_ok (nq : Nat) (cond : Option Nat) (cs : List (Chunk P))
-    (h : ∀ c ∈ cs, c.conds = [] ∧ ∃ a, c.app = some a ∧ AppOK nq a) : ∀ c ∈ withCond cond cs, ChunkOK nq c := by
+    (h : ∀ c ∈ cs, c.conds = [] ∧ ∃ a, c.app = some a ∧ AppOK nq a) :
+    ∀ c ∈ withCond cond cs, ChunkOK' nq cond c := by
   intro c hc
+  refine ⟨?_, ?_⟩
+  swap
+  · rintro rfl
+    exact (h c hc).1
   cases cond with
   | none =>
     obtain ⟨h1, h2⟩ := h c hc
@@ -346,5 +354,477 @@ theorem mem_repeatAppend {α} (xs : List α) (n : Nat) (x : α) (h : x ∈ repea
     rcases h with h | h
     · exact h
     · exact ih h
+
+theorem sub_mapM (bits sub : List Nat) (h : ∀ k ∈ sub, k < bits.length) :
+    sub.mapM (fun b => bits[b]?) = some (sub.map fun k => bits.getD k 0) :=
+  mapM_eq_map _ _ _ fun k hk => by
+    simp [List.getD_eq_getElem?_getD, List.getElem?_eq_getElem (h k hk)]
+
+theorem mem_map_getD_lt (bits sub : List Nat) (nq : Nat) (hb : ∀ b ∈ bits, b < nq)
+    (h : ∀ k ∈ sub, k < bits.length) : ∀ b ∈ sub.map (fun k => bits.getD k 0), b < nq := by
+  intro b hbm
+  obtain ⟨k, hk, rfl⟩ := List.mem_map.1 hbm
+  simp only [List.getD_eq_getElem?_getD, List.getElem?_eq_getElem (h k hk), Option.getD_some]
+  exact hb _ (List.getElem_mem _)
+
+mutual
+theorem exportGate_chunks (tbl : List GateTpl) (nq : Nat) (cond : Option Nat) :
+    ∀ (g : QGate P) (bits : List Nat) (cs : List (Chunk P)), g.sound tbl = true → bits.Nodup →
+      (∀ b ∈ bits, b < nq) → bits.length = nbits tbl g →
+      exportGate tbl (qbitNames nq) cond g bits = .ok cs → ∀ c ∈ cs, ChunkOK' nq cond c
+  | .lib name ps, bits, cs, hs, hn, hb, hl, h => by
+    unfold QGate.sound at hs
+    unfold exportGate at h
+    unfold nbits at hl
+    cases ht : lookupTpl tbl name with
+    | none => rw [ht] at hs; cases hs
+    | some t =>
+      rw [ht] at hs h hl
+      simp only [Bool.and_eq_true, beq_iff_eq, List.all_eq_true] at hs
+      simp only at h hl
+      rw [libExport_eq t hs.1.1 ps hs.1.2 nq bits hb hl] at h
+      simp only [Res.map, Res.bind_ok, Res.ok.injEq] at h
+      subst h
+      refine withCond_ok nq cond _ fun c hc => ?_
+      obtain ⟨s, hsm, rfl⟩ := List.mem_map.1 hc
+      exact chunkOf_ok t hs.1.1 ps hs.1.2 hs.2 nq bits hn hb hl s hsm
+  | .ctrl g, bits, cs, hs, _, _, _, _ => by simp [QGate.sound] at hs
+  | .kron g0 g1, bits, cs, hs, hn, hb, hl, h => by
+    unfold QGate.sound at hs
+    simp only [Bool.and_eq_true] at hs
+    unfold exportGate at h
+    unfold nbits at hl
+    simp only at h
+    have hlt : ¬ bits.length < nbits tbl g0 := by omega
+    simp only [hlt, if_false] at h
+    obtain ⟨a, ha, h⟩ := Res.bind_eq_ok.1 h
+    obtain ⟨b, hb', h⟩ := Res.bind_eq_ok.1 h
+    simp only [Res.ok.injEq] at h
+    subst h
+    intro c hc
+    rcases List.mem_append.1 hc with hc | hc
+    · exact exportGate_chunks tbl nq cond g0 _ a hs.1 (hn.sublist (List.take_sublist _ _))
+        (fun x hx => hb x (List.mem_of_mem_take hx)) (by simp; omega) ha c hc
+    · exact exportGate_chunks tbl nq cond g1 _ b hs.2 (hn.sublist (List.drop_sublist _ _))
+        (fun x hx => hb x (List.mem_of_mem_drop hx)) (by simp; omega) hb' c hc
+  | .composite _ n ops, bits, cs, hs, hn, hb, hl, h => by
+    unfold QGate.sound at hs
+    simp only [Bool.and_eq_true] at hs
+    unfold exportGate at h
+    unfold nbits at hl
+    cases ops with
+    | nil => simp [QOps.nonEmpty] at hs
+    | cons g sub rest =>
+      simp only at h
+      exact exportOps_chunks tbl nq cond _ bits cs (hl ▸ hs.2) hn hb h
+  | .loop _ iters _ n body, bits, cs, hs, hn, hb, hl, h => by
+    unfold QGate.sound at hs
+    simp only [Bool.and_eq_true, decide_eq_true_eq] at hs
+    unfold exportGate at h
+    unfold nbits at hl
+    have hi : ¬ iters = 0 := by omega
+    simp only [hi, if_false] at h
+    cases body with
+    | nil => simp [QOps.nonEmpty] at hs
+    | cons g sub rest =>
+      simp only at h
+      obtain ⟨b, hb', h⟩ := Res.bind_eq_ok.1 h
+      simp only [Res.ok.injEq] at h
+      subst h
+      intro c hc
+      exact exportOps_chunks tbl nq cond _ bits b (hl ▸ hs.2) hn hb hb' c (mem_repeatAppend _ _ _ hc)
+theorem exportOps_chunks (tbl : List GateTpl) (nq : Nat) (cond : Option Nat) :
+    ∀ (ops : QOps P) (bits : List Nat) (cs : List (Chunk P)), ops.sound tbl bits.length = true → bits.Nodup →
+      (∀ b ∈ bits, b < nq) →
+      exportOps tbl (qbitNames nq) cond ops bits = .ok cs → ∀ c ∈ cs, ChunkOK' nq cond c
+  | .nil, _, cs, _, _, _, h => by
+    simp only [exportOps, Res.ok.injEq] at h
+    subst h
+    intro c hc; cases hc
+  | .cons g sub rest, bits, cs, hs, hn, hb, h => by
+    unfold QOps.sound at hs
+    simp only [Bool.and_eq_true, beq_iff_eq, decide_eq_true_eq, List.all_eq_true] at hs
+    obtain ⟨⟨⟨⟨hg, hlen⟩, hnd⟩, hlt⟩, hrest⟩ := hs
+    unfold exportOps at h
+    rw [sub_mapM bits sub hlt] at h
+    simp only at h
+    obtain ⟨a, ha, h⟩ := Res.bind_eq_ok.1 h
+    obtain ⟨b, hb', h⟩ := Res.bind_eq_ok.1 h
+    simp only [Res.ok.injEq] at h
+    subst h
+    intro c hc
+    rcases List.mem_append.1 hc with hc | hc
+    · exact exportGate_chunks tbl nq cond g _ a hg (nodup_map_getD bits sub hn hnd hlt)
+        (mem_map_getD_lt bits sub nq hb hlt) (by simp [hlen]) ha c hc
+    · exact exportOps_chunks tbl nq cond rest bits b hrest hn hb hb' c hc
+end
+
+/-! ## statements -/
+
+/-- the registers the exporter declares -/
+def regsOf (nq nc : Nat) : Regs :=
+  ⟨if nq > 0 then [("q", nq)] else [], if nc > 0 then [("b", nc)] else []⟩
+
+/-- a statement without a well-formedness problem, given the registers -/
+def StmtOK (rg : Regs) : Stmt → Prop
+  | .op o => opProblem true rg o = none
+  | .cond c _ o => (findReg rg.cregs c).isSome = true ∧ opProblem true rg o = none
+  | _ => False
+
+theorem findReg_q (nq : Nat) : findReg [("q", nq)] "q" = some (0, nq) := by simp [findReg]
+theorem findReg_b (nc : Nat) : findReg [("b", nc)] "b" = some (0, nc) := by simp [findReg]
+
+theorem eraseDups_of_nodup (l : List Nat) (h : l.Nodup) : l.eraseDups = l := by
+  induction l with
+  | nil => simp
+  | cons a l ih =>
+    rw [List.eraseDups_cons]
+    have ha : a ∉ l := (List.nodup_cons.1 h).1
+    have : l.filter (fun b => !b == a) = l := by
+      rw [List.filter_eq_self]
+      intro b hb
+      simp
+      rintro rfl; exact ha hb
+    rw [this, ih (List.nodup_cons.1 h).2]
+
+theorem firstProblem_idx (r : String) (n : Nat) (is : List Nat) (h : ∀ i ∈ is, i < n) :
+    firstProblem (argProblem [(r, n)]) (is.map (QArg.idx r)) = none := by
+  induction is with
+  | nil => rfl
+  | cons i is ih =>
+    have hi := h i (List.mem_cons_self ..)
+    simp only [List.map_cons, firstProblem, argProblem, findReg, if_true, hi]
+    exact ih fun j hj => h j (List.mem_cons_of_mem _ hj)
+
+theorem resolve_idx (r : String) (n : Nat) (is : List Nat) (h : ∀ i ∈ is, i < n) :
+    (is.map (QArg.idx r)).mapM (resolveArg [(r, n)]) = some (is.map fun i => ([i], false)) := by
+  rw [show (is.map fun i => (([i], false) : List Nat × Bool)) =
+      (is.map (QArg.idx r)).map (fun a => match a with | .idx _ i => ([i], false) | .reg _ => ([], true)) by
+    simp [List.map_map, Function.comp_def]]
+  refine mapM_eq_map _ _ _ fun a ha => ?_
+  obtain ⟨i, hi, rfl⟩ := List.mem_map.1 ha
+  simp [resolveArg, findReg, h i hi]
+
+theorem instances_idx (is : List Nat) : instances (is.map fun i => (([i], false) : List Nat × Bool)) = some [is] := by
+  have hf : (is.map fun i => (([i], false) : List Nat × Bool)).filter (·.2) = [] := by
+    simp [List.filter_eq_nil_iff]
+  simp only [instances, hf, List.map_nil, List.map_map, Function.comp_def, List.headD_cons, List.map_id']
+
+/-- a good application has no well-formedness problem -/
+theorem appOK_problem (nq nc : Nat) (hq : 0 < nq) (a : App P) (h : AppOK nq a) :
+    ∃ qs, a.qargs.mapM QRef.toQArg = some qs ∧
+      opProblem true (regsOf nq nc) (.app a.name (a.args.map Arg.skeleton) qs) = none := by
+  obtain ⟨⟨np, k, hsig, hnp, hk⟩, hcl, is, hqs, hnd, hlt⟩ := h
+  refine ⟨is.map (QArg.idx "q"), ?_, ?_⟩
+  · rw [hqs, List.mapM_map]
+    exact mapM_eq_map _ _ _ fun i _ => rfl
+  · have hids : (a.args.map Arg.skeleton).flatMap idents = [] := by
+      rw [List.flatMap_eq_nil_iff]
+      intro e he
+      obtain ⟨e0, he0, rfl⟩ := List.mem_map.1 he
+      exact hcl e0 he0
+    have hlen : (is.map (QArg.idx "q")).length = k := by
+      rw [List.length_map, ← hk, hqs, List.length_map]
+    have hregs : (regsOf nq nc).qregs = [("q", nq)] := by simp [regsOf, hq]
+    simp only [opProblem, hsig, List.length_map, hnp, hlen, ne_eq, not_true_eq_false, if_false, hids,
+      List.head?_nil, hregs, firstProblem_idx "q" nq is hlt, resolve_idx "q" nq is hlt, instances_idx,
+      List.all_cons, List.all_nil, Bool.and_true, eraseDups_of_nodup is hnd, beq_self_eq_true, if_true]
+
+theorem chunkOK_stmt (nq nc : Nat) (hq : 0 < nq) (c : Chunk P) (h : ChunkOK nq c)
+    (hc : c.conds ≠ [] → 0 < nc) : ∃ st, c.toStmt = some st ∧ StmtOK (regsOf nq nc) st := by
+  obtain ⟨hlen, a, ha, hok⟩ := h
+  obtain ⟨qs, hqs, hp⟩ := appOK_problem nq nc hq a hok
+  unfold Chunk.toStmt
+  rw [ha]
+  simp only [hqs]
+  match hcs : c.conds, hlen with
+  | [], _ => exact ⟨_, rfl, hp⟩
+  | [k], _ =>
+    have : 0 < nc := hc (by rw [hcs]; simp)
+    refine ⟨_, rfl, ?_, hp⟩
+    simp [regsOf, this, findReg]
+  | _ :: _ :: _, hl => simp at hl
+
+/-! ## operations and circuits -/
+
+/-- outside the defect classes: sound gates on distinct qubits in range with the right arity; Z-basis measurements
+with operands in range (what the `Circuit` API accepts); non-empty barriers in range -/
+def QOp.sound (tbl : List GateTpl) (nq nc : Nat) : QOp P → Bool
+  | .gate g bits => g.sound tbl && bits.length == nbits tbl g && decide bits.Nodup && bits.all (· < nq)
+  | .cond _ _ g bits => g.sound tbl && bits.length == nbits tbl g && decide bits.Nodup && bits.all (· < nq)
+  | .measure q c b => b == .Z && decide (q < nq) && decide (c < nc)
+  | .measureAll cbits b => b == .Z && cbits.length == nq && cbits.all (· < nc)
+  | .peek _ _ _ | .peekAll _ _ => true
+  | .reset q => decide (q < nq)
+  | .resetAll => true
+  | .barrier qbits => !qbits.isEmpty && qbits.all (· < nq)
+
+def QCircuit.sound (tbl : List GateTpl) (c : QCircuit P) : Bool :=
+  decide (0 < c.nq) && c.ops.all (QOp.sound tbl c.nq c.nc)
+
+/-- a line that is a statement without a problem -/
+def LineOK (rg : Regs) (l : Line P) : Prop := ∃ st, l.toStmt = some (some st) ∧ StmtOK rg st
+
+theorem gateLines_ok (nq nc : Nat) (hq : 0 < nq) (cond : Option Nat) (hc : cond ≠ none → 0 < nc)
+    (cs : List (Chunk P)) (h : ∀ c ∈ cs, ChunkOK' nq cond c) : ∀ l ∈ gateLines cs, LineOK (regsOf nq nc) l := by
+  intro l hl
+  obtain ⟨c, hcm, rfl⟩ := List.mem_map.1 hl
+  obtain ⟨hok, hnone⟩ := h c hcm
+  obtain ⟨st, hst, hs⟩ := chunkOK_stmt nq nc hq c hok (fun hne => hc fun hn => hne (hnone hn))
+  exact ⟨st, by simp [Line.toStmt, hst], hs⟩
+
+theorem measure_ok (nq nc q c : Nat) (hq : q < nq) (hc : c < nc) :
+    LineOK (regsOf nq nc) (Line.measure (QRef.bit "q" q) (QRef.bit "b" c) : Line P) := by
+  refine ⟨.op (.measure (.idx "q" q) (.idx "b" c)), rfl, ?_⟩
+  have h1 : 0 < nq := by omega
+  have h2 : 0 < nc := by omega
+  simp [StmtOK, opProblem, argProblem, regsOf, h1, h2, findReg, hq, hc, resolveArg]
+
+theorem isFullRegister_length (nc : Nat) (control : List Nat) (h : isFullRegister nc control = true) :
+    control.length = nc := by
+  simp only [isFullRegister, Bool.and_eq_true, beq_iff_eq] at h
+  exact h.1
+
+theorem exportOp_lines_ok (tbl : List GateTpl) (nq nc : Nat) (hq : 0 < nq) (op : QOp P)
+    (hs : op.sound tbl nq nc = true) (ls : List (Line P)) (h : exportOp tbl nq nc op = .ok ls) :
+    ∀ l ∈ ls, LineOK (regsOf nq nc) l := by
+  cases op with
+  | gate g bits =>
+    simp only [QOp.sound, Bool.and_eq_true, beq_iff_eq, decide_eq_true_eq, List.all_eq_true] at hs
+    obtain ⟨cs, hcs, rfl⟩ := Res.map_eq_ok.1 h
+    exact gateLines_ok nq nc hq none (fun h => absurd rfl h) cs
+      (exportGate_chunks tbl nq none g bits cs hs.1.1.1 hs.1.2 hs.2 hs.1.1.2 hcs)
+  | cond control target g bits =>
+    simp only [QOp.sound, Bool.and_eq_true, beq_iff_eq, decide_eq_true_eq, List.all_eq_true] at hs
+    simp only [exportOp] at h
+    by_cases hc : control.isEmpty = true
+    · simp only [hc, if_true] at h
+      obtain ⟨cs, hcs, rfl⟩ := Res.map_eq_ok.1 h
+      exact gateLines_ok nq nc hq none (fun h => absurd rfl h) cs
+        (exportGate_chunks tbl nq none g bits cs hs.1.1.1 hs.1.2 hs.2 hs.1.1.2 hcs)
+    · simp only [hc] at h
+      by_cases hf : isFullRegister nc control = true
+      · simp only [hf, Bool.not_true] at h
+        cases hk : conditionWord control target with
+        | none => simp [hk] at h
+        | some k =>
+          simp only [hk] at h
+          have h' : (exportGate tbl (qbitNames nq) (some k) g bits).map gateLines = .ok ls := by simpa using h
+          obtain ⟨cs, hcs, rfl⟩ := Res.map_eq_ok.1 h'
+          have hnc : 0 < nc := by
+            have := isFullRegister_length nc control hf
+            cases control with
+            | nil => simp at hc
+            | cons x xs => simp at this; omega
+          exact gateLines_ok nq nc hq (some k) (fun _ => hnc) cs
+            (exportGate_chunks tbl nq (some k) g bits cs hs.1.1.1 hs.1.2 hs.2 hs.1.1.2 hcs)
+      · simp [hf] at h
+  | measure q c b =>
+    simp only [QOp.sound, Bool.and_eq_true, beq_iff_eq, decide_eq_true_eq] at hs
+    obtain ⟨⟨rfl, hq'⟩, hc'⟩ := hs
+    simp only [exportOp, basisLines, Res.bind_ok, qbitNames_get nq q hq', cbitNames_get nc c hc',
+      List.nil_append, Res.ok.injEq] at h
+    subst h
+    intro l hl
+    simp only [List.mem_singleton] at hl
+    subst hl
+    exact measure_ok nq nc q c hq' hc'
+  | measureAll cbits b =>
+    simp only [QOp.sound, Bool.and_eq_true, beq_iff_eq, List.all_eq_true, decide_eq_true_eq] at hs
+    obtain ⟨⟨rfl, hlen⟩, hlt⟩ := hs
+    simp only [exportOp, basisLines, Res.bind_ok, List.nil_append] at h
+    split at h
+    · rename_i hid
+      simp only [Bool.and_eq_true, beq_iff_eq] at hid
+      simp only [Res.ok.injEq] at h
+      subst h
+      intro l hl
+      simp only [List.mem_singleton] at hl
+      subst hl
+      have hnc : nc = nq := by omega
+      refine ⟨.op (.measure (.reg "q") (.reg "b")), rfl, ?_⟩
+      have h2 : 0 < nc := by omega
+      simp [StmtOK, opProblem, argProblem, regsOf, hq, findReg, resolveArg, hnc]
+    · rw [mapM_eq_map _ (fun x : Nat × Nat => (Line.measure (QRef.bit "q" x.2) (QRef.bit "b" x.1) : Line P))
+        cbits.zipIdx (by
+          intro x hx
+          have hx2 : x.2 < nq := by
+            have := List.mem_zipIdx hx
+            omega
+          have hx1 : x.1 < nc := by
+            have := List.mem_zipIdx hx
+            exact hlt x.1 (by rw [this.2.2]; exact List.getElem_mem _)
+          simp [qbitNames_get nq x.2 hx2, cbitNames_get nc x.1 hx1])] at h
+      simp only [Res.ok.injEq] at h
+      subst h
+      intro l hl
+      obtain ⟨x, hx, rfl⟩ := List.mem_map.1 hl
+      have hx2 : x.2 < nq := by
+        have := List.mem_zipIdx hx
+        omega
+      have hx1 : x.1 < nc := by
+        have := List.mem_zipIdx hx
+        exact hlt x.1 (by rw [this.2.2]; exact List.getElem_mem _)
+      exact measure_ok nq nc x.2 x.1 hx2 hx1
+  | peek q c b => cases h
+  | peekAll cbits b => cases h
+  | reset q =>
+    simp only [QOp.sound, decide_eq_true_eq] at hs
+    simp only [exportOp, qbitNames_get nq q hs, Res.ok.injEq] at h
+    subst h
+    intro l hl
+    simp only [List.mem_singleton] at hl
+    subst hl
+    refine ⟨.op (.reset (.idx "q" q)), rfl, ?_⟩
+    simp [StmtOK, opProblem, argProblem, regsOf, hq, findReg, hs]
+  | resetAll =>
+    simp only [exportOp, Res.ok.injEq] at h
+    subst h
+    intro l hl
+    simp only [List.mem_singleton] at hl
+    subst hl
+    refine ⟨.op (.reset (.reg "q")), rfl, ?_⟩
+    simp [StmtOK, opProblem, argProblem, regsOf, hq, findReg]
+  | barrier qbits =>
+    simp only [QOp.sound, Bool.and_eq_true, Bool.not_eq_true', List.all_eq_true, decide_eq_true_eq] at hs
+    simp only [exportOp] at h
+    split at h
+    · simp only [Res.ok.injEq] at h
+      subst h
+      intro l hl
+      simp only [List.mem_singleton] at hl
+      subst hl
+      refine ⟨.op (.barrier [.reg "q"]), rfl, ?_⟩
+      simp [StmtOK, opProblem, argProblem, regsOf, hq, findReg, firstProblem]
+    · rw [show qbits.mapM (fun b => (qbitNames nq)[b]?) = some (qbits.map (QRef.bit "q")) from
+        bits_mapM nq qbits hs.2] at h
+      simp only [Res.ok.injEq] at h
+      subst h
+      intro l hl
+      simp only [List.mem_singleton] at hl
+      subst hl
+      refine ⟨.op (.barrier (qbits.map (QArg.idx "q"))), ?_, ?_⟩
+      · simp only [Line.toStmt, List.mapM_map]
+        rw [mapM_eq_map (QRef.toQArg ∘ QRef.bit "q") (QArg.idx "q") qbits fun _ _ => rfl]
+        rfl
+      · have hne : (qbits.map (QArg.idx "q")).isEmpty = false := by
+          cases qbits with
+          | nil => simp at hs
+          | cons x xs => rfl
+        simp only [StmtOK, opProblem, hne, Bool.false_eq_true, if_false]
+        have : (regsOf nq nc).qregs = [("q", nq)] := by simp [regsOf, hq]
+        rw [this]
+        exact firstProblem_idx "q" nq qbits hs.2
+
+/-! ## the whole program -/
+
+theorem lines_toStmts (rg : Regs) (ls : List (Line P)) (h : ∀ l ∈ ls, LineOK rg l) :
+    ∃ sts : List Stmt, ls.mapM Line.toStmt = some (sts.map some) ∧ ∀ st ∈ sts, StmtOK rg st := by
+  induction ls with
+  | nil => exact ⟨[], rfl, fun _ h => by cases h⟩
+  | cons l ls ih =>
+    obtain ⟨st, hst, hok⟩ := h l (List.mem_cons_self ..)
+    obtain ⟨sts, hsts, hall⟩ := ih fun l' hl' => h l' (List.mem_cons_of_mem _ hl')
+    refine ⟨st :: sts, ?_, ?_⟩
+    · rw [List.mapM_cons, hst, hsts]; rfl
+    · intro s hs
+      rcases List.mem_cons.1 hs with rfl | hs
+      · exact hok
+      · exact hall s hs
+
+theorem stmtsProblem_ok (rg : Regs) (sts : List Stmt) (h : ∀ st ∈ sts, StmtOK rg st) :
+    stmtsProblem true rg sts = none := by
+  induction sts with
+  | nil => rfl
+  | cons st sts ih =>
+    have h1 := h st (List.mem_cons_self ..)
+    have h2 := ih fun s hs => h s (List.mem_cons_of_mem _ hs)
+    cases st with
+    | qreg r n => exact absurd h1 (by simp [StmtOK])
+    | creg r n => exact absurd h1 (by simp [StmtOK])
+    | op o =>
+      simp only [StmtOK] at h1
+      simp [stmtsProblem, h1, h2]
+    | cond c k o =>
+      simp only [StmtOK] at h1
+      have : (findReg rg.cregs c).isNone = false := by
+        cases hf : findReg rg.cregs c with
+        | none => rw [hf] at h1; simp at h1
+        | some x => rfl
+      simp [stmtsProblem, this, h1.2, h2]
+
+theorem opProblem_none_sig (rg : Regs) (name : String) (ps : List Expr) (args : List QArg)
+    (h : opProblem true rg (.app name ps args) = none) : (signature true name).isSome = true := by
+  cases hs : signature true name with
+  | none => simp [opProblem, hs] at h
+  | some x => rfl
+
+theorem stmts_qelib (rg : Regs) (sts : List Stmt) (h : ∀ st ∈ sts, StmtOK rg st) :
+    (sts.all fun s => match s with
+      | .op (.app name _ _) | .cond _ _ (.app name _ _) => (signature true name).isSome
+      | _ => true) = true := by
+  rw [List.all_eq_true]
+  intro st hst
+  have := h st hst
+  cases st with
+  | qreg r n => rfl
+  | creg r n => rfl
+  | op o =>
+    cases o with
+    | app name ps args => exact opProblem_none_sig rg name ps args this
+    | measure q c => rfl
+    | reset q => rfl
+    | barrier qs => rfl
+  | cond c k o =>
+    cases o with
+    | app name ps args => exact opProblem_none_sig rg name ps args this.2
+    | measure q c => rfl
+    | reset q => rfl
+    | barrier qs => rfl
+
+/-- `export_wellformed_partial` for an arbitrary table: a sound circuit whose export succeeds is exported as a
+well-formed program that uses only built-in and `qelib1` gates. -/
+theorem export_wellformed_of_sound (tbl : List GateTpl) (c : QCircuit P) (hs : c.sound tbl = true)
+    (ls : List (Line P)) (h : exportCircuit tbl c = .ok ls) :
+    ∃ p, toProgram ls = some p ∧ WellFormed p ∧ usesOnlyQelib1 p = true := by
+  simp only [QCircuit.sound, Bool.and_eq_true, decide_eq_true_eq, List.all_eq_true] at hs
+  obtain ⟨hq, hops⟩ := hs
+  obtain ⟨per, hper, rfl⟩ := (exportCircuit_ok_iff tbl c ls).1 h
+  have hbody : ∀ l ∈ per.flatten, LineOK (regsOf c.nq c.nc) l := by
+    intro l hl
+    obtain ⟨lsi, hlsi, hl⟩ := List.mem_flatten.1 hl
+    have hmem : Res.ok lsi ∈ c.ops.map (exportOp tbl c.nq c.nc) := by
+      rw [hper]; exact List.mem_map_of_mem hlsi
+    obtain ⟨op, hop, he⟩ := List.mem_map.1 hmem
+    exact exportOp_lines_ok tbl c.nq c.nc hq op (hops op hop) lsi he l hl
+  obtain ⟨sts, hsts, hall⟩ := lines_toStmts _ _ hbody
+  have hnq : c.nq ≠ 0 := by omega
+  by_cases hnc : 0 < c.nc
+  · refine ⟨⟨true, .qreg "q" c.nq :: .creg "b" c.nc :: sts⟩, ?_, ?_, ?_⟩
+    · simp only [header, hq, hnc, if_true, List.cons_append, List.nil_append, List.append_assoc, toProgram,
+        List.mapM_cons, Line.toStmt, hsts]
+      simp
+    · have hr : ({ qregs := [("q", c.nq)], cregs := [("b", c.nc)] } : Regs) = regsOf c.nq c.nc := by
+        simp [regsOf, hq, hnc]
+      have hnc' : c.nc ≠ 0 := by omega
+      simp only [WellFormed, wfProblem, stmtsProblem, Regs.empty, findReg, Option.isSome_none, Bool.or_self,
+        Bool.false_eq_true, if_false, hnq, List.nil_append, hnc']
+      simp only [findReg, show ("q" = "b") = False by decide, if_false, Option.map_none, Option.isSome_none,
+        Bool.or_self, Bool.false_eq_true, hr]
+      exact stmtsProblem_ok _ sts hall
+    · simp only [usesOnlyQelib1, List.all_cons, Bool.true_and]
+      exact stmts_qelib _ sts hall
+  · have hnc0 : c.nc = 0 := by omega
+    refine ⟨⟨true, .qreg "q" c.nq :: sts⟩, ?_, ?_, ?_⟩
+    · simp only [header, hq, hnc, if_true, if_false, List.cons_append, List.nil_append, List.append_nil, toProgram,
+        List.mapM_cons, Line.toStmt, hsts]
+      simp
+    · have hr : ({ qregs := [("q", c.nq)], cregs := [] } : Regs) = regsOf c.nq c.nc := by
+        simp [regsOf, hq, hnc0]
+      simp only [WellFormed, wfProblem, stmtsProblem, Regs.empty, findReg, Option.isSome_none, Bool.or_self,
+        Bool.false_eq_true, if_false, hnq, List.nil_append, hr]
+      exact stmtsProblem_ok _ sts hall
+    · simp only [usesOnlyQelib1, List.all_cons, Bool.true_and]
+      exact stmts_qelib _ sts hall
 
 end Q1t.OpenQasm
